@@ -207,6 +207,26 @@ func (c *Ctx) varintLenModel(fd *ast.FuncDecl) *vlModel {
 	}
 	h.Decide = func(in *Interp, st *State, cond ast.Expr) tri {
 		p := st.P.(*vlPay)
+		// the nil error of a read that succeeded is none of the library's sentinel errors (err == io.EOF)
+		if be, isB := stripParens(cond).(*ast.BinaryExpr); isB && (be.Op == token.EQL || be.Op == token.NEQ) {
+			for _, side := range [][2]ast.Expr{{be.X, be.Y}, {be.Y, be.X}} {
+				li := lastIdent(side[1])
+				if li == nil {
+					continue
+				}
+				sv, isVar := c.objOf(li).(*types.Var)
+				if !isVar || sv.Pkg() == nil || sv.Pkg().Path() == bclPath || sv.Parent() != sv.Pkg().Scope() || !isErrorType(sv.Type()) {
+					continue
+				}
+				vs := in.eval(st.clone(), side[0])
+				if len(vs) == 1 && vs[0].v.K == vTag && vs[0].v.Tag == "nil" {
+					if be.Op == token.EQL {
+						return triFalse
+					}
+					return triTrue
+				}
+			}
+		}
 		d, op, ok := cmpOf(in, st, cond)
 		if !ok {
 			return triUnknown
@@ -376,4 +396,15 @@ func (c *Ctx) varintLenModel(fd *ast.FuncDecl) *vlModel {
 	sort.Strings(m.Buffers)
 	m.Problems = dedupe(m.Problems)
 	return m
+}
+
+// lastIdent: the identifier an expression ends in (x, pkg.x), or nil.
+func lastIdent(e ast.Expr) *ast.Ident {
+	switch x := stripParens(e).(type) {
+	case *ast.Ident:
+		return x
+	case *ast.SelectorExpr:
+		return x.Sel
+	}
+	return nil
 }
